@@ -99,7 +99,7 @@ def _gen_build(r, g, class_default):
                     v = _sv(g.tok(t))
                 st['items'].append([dk, v])
     fams = [r.choice(['call', 'call', 'bind', 'xrefcall', 'eval', 'fstr', 'import', 'rec', 'boxinc', 'chain', 'evalprobe',
-                      'evalattr', 'aynscfg', 'reclist', 'recxref', 'inclist', 'boxwhole', 'boxwhole'])
+                      'evalattr', 'aynscfg', 'reclist', 'recxref', 'inclist', 'boxwhole', 'boxwhole', 'nestbox', 'nestbox'])
             for _ in range(r.randrange(1, 5))]
     # a mapping-valued data entry whose members have their own taint (read member-wise by evaluated code)
     box_key = None
@@ -131,7 +131,7 @@ def _gen_build(r, g, class_default):
                     else:
                         v = _call(g, t, fam)
                 else:
-                    c = r.randrange(9)
+                    c = r.randrange(10)
                     if c == 0:
                         v = '{' + ', '.join(f'{k}: {_sv(g.tok(t))}' for k in r.sample(['a', 'b', 'c'], r.randrange(1, 3))) + '}'
                     elif c == 1:
@@ -148,6 +148,8 @@ def _gen_build(r, g, class_default):
                         v = f'{{a: !xref {dk}}}'
                     elif c == 7:
                         v = '!merge {b: ' + _sv(g.tok(t)) + '}'
+                    elif c == 9:
+                        v = '{!unsafe ' + g.tok('U') + ': ' + _sv(g.tok(t)) + '}'     # the *name* of an argument is unsafe content
                     else:
                         v = _call(g, t, r.choice(['call', 'bind']))
             elif fam == 'xrefcall':
@@ -168,6 +170,23 @@ def _gen_build(r, g, class_default):
                 member = r.choice(['dbox.q', "dbox['q']", 'dbox.p'])
                 first = 'dbox_alias, ' if any(k == 'dbox_alias' for k, _ in stages[0]['items']) and r.random() < 0.7 else ''
                 v = '!eval ' + emit.scalar_text(f"rec('{own}', {first}{member})")
+            elif fam == 'nestbox':
+                if base:
+                    c = r.randrange(4)
+                    inner = [_call(g, t, r.choice(['call', 'bind'])), _call(g, t, 'call', args={}), '!force {}', '!force []'][c]
+                    v = '{c: ' + inner + ', d: ' + _sv(g.tok(t)) + '}'
+                else:
+                    c = r.randrange(5)
+                    if c == 0:
+                        v = '!unsafe {c: ' + _sv('simrec.f_' + g.tok('U')) + '}'             # name replaced by an implicitly unsafe string
+                    elif c == 1:
+                        v = '!unsafe {c: ' + _call(g, 'U', r.choice(['call', 'bind']), args={}) + '}'   # argument-less dynamic node below !unsafe
+                    elif c == 2:
+                        v = '!unsafe {c: {a: ' + _sv(g.tok('U')) + '}}'
+                    elif c == 3:
+                        v = '{c: {a: ' + _sv(g.tok(t)) + '}}'
+                    else:
+                        v = '{c: !force {}}'
             elif fam == 'boxwhole':
                 # a container with members of mixed taint (the unsafe one not last), consumed as a whole
                 members = [('q', '!unsafe ' + _sv(g.tok('U'))), ('p', _sv(g.tok(t))), ('r', _sv(g.tok(t)))]
